@@ -180,7 +180,10 @@ func solve(file string, secs int, all bool) (Result, []Result) {
 	if all {
 		// thorough: every member of the portfolio runs to its verdict (cross-check: how many of them prove the goal);
 		// members that are still running 5 s after the first proof are stopped - their verdict would not change the result
-		specs := append([]solverSpec{solvers[0], z3EM}, solvers[1:]...)
+		// (the same members as stage 2 of the quick tier, seeded ones included: a thorough run must never be weaker than a
+		// quick run - rewrite.captureTokens/post:dollar-n-to-nth-capture is proved by a seeded member only)
+		specs := []solverSpec{solvers[0], z3EM, z3Seeded(solverSeed + 1), z3Seeded(solverSeed + 2), z3Seeded(solverSeed + 3)}
+		specs = append(specs, solvers[1:]...)
 		var wg sync.WaitGroup
 		rs := make([]Result, len(specs))
 		ctx, cancel := context.WithCancel(context.Background())
